@@ -4,7 +4,8 @@ import common as C
 import gen
 from props import util
 
-THEOREMS = ['C03_primal_check_sound', 'C03_weak_duality', 'C03_optimality_check_sound', 'C03_infeasibility_check_sound']
+THEOREMS = ['C03_primal_check_sound', 'C03_weak_duality', 'C03_optimality_check_sound', 'C03_infeasibility_check_sound',
+            'C03_translation_equivalent', 'C03_boolean_variables']
 CFG = {'p_coarse': 0.1, 'p_periodic': 0.1, 'T': (3, 7), 'n_assets': (1, 4), 'nodes': (1, 3), 'p_market': 0.8,
        'p_no_simult': 0.15, 'p_full_exec': 0.3,
        'kinds': {'SimpleContract': 1, 'Contract': 3, 'Transport': 2, 'Storage': 3,
@@ -95,11 +96,25 @@ def run(ctx):
     res = C.run_impl('optim', specs)
     exprs, owners = [], []
     fexprs, fowners = [], []
+    texprs, towners = [], []
     for sp, o in zip(specs, res):
         ctx.count('status:' + str(o.get('status')))
         if o.get('status') != 'ok':
             continue
         prob = o['problem']
+        tr = o.get('translation')
+        if tr is not None:
+            if tr['problems']:
+                ctx.broken('correspondence-broken', {'spec': sp, 'theorem_or_correspondence': 'constraints handed to cvxpy not understood: %s' % tr['problems']})
+            else:
+                # bounds are handed over as they are; rows by class
+                if tr.get('bound_u') != prob['u'] or tr.get('bound_l') != prob['l']:
+                    ctx.violation('impl-violation', {'spec': sp, 'observed': {'bounds handed to the solver': [tr.get('bound_l'), tr.get('bound_u')]}, 'expected': [prob['l'], prob['u']]},
+                                  trigger={'what': 'bounds handed to the solver differ'})
+                gk = {'LE': 'GLe', 'GE': 'GGe', 'EQ': 'GEq'}
+                obs = C.lst(['(Build_cgroup %s %s)' % (gk[g['kind']], C.lst(['(%s, %s)' % (C.srow(r[0], r[1]), C.q(float(b))) for r, b in zip(g['rows'], g['b'])])) for g in tr['groups']])
+                texprs.append('(c03_translate_case %s %s %s %s)' % (C.lp(prob), C.mapping(prob['mapping']), obs, C.lst([C.nat(j) for j in tr['bools']])))
+                towners.append(sp)
         ismip = len(o['bools']) > 0
         ctx.count('mip' if ismip else 'lp')
         for r in o['runs']:
@@ -149,4 +164,12 @@ def run(ctx):
             ctx.count('failure certified infeasible' if ok else 'failure: farkas certificate rejected')
             if not ok:
                 ctx.broken('validator-rejected', {'spec': sp, 'theorem_or_correspondence': 'check_farkas on reported failure'})
-    ctx.cov['correspondence']['cases'] = len(exprs) + len(fexprs)
+    if texprs:
+        tv = C.run_coq_exprs('C03t', 'Num LP Cert Mapping Dcf Corr Translate', texprs, chunk=10)
+        for sp, v in zip(towners, tv):
+            ctx.cov['correspondence']['components_compared'] += 2
+            for nm, ok in zip(['row groups handed to the solver = Translate.translate', 'boolean variables = Translate.bool_vars'], v):
+                if not ok:
+                    ctx.cov['correspondence']['disagreements'] += 1
+                    ctx.broken('correspondence-broken', {'spec': sp, 'theorem_or_correspondence': 'optimize() vs Translate.v: ' + nm})
+    ctx.cov['correspondence']['cases'] = len(exprs) + len(fexprs) + len(texprs)
